@@ -40,17 +40,18 @@ type ECase struct {
 }
 
 type eStats struct {
-	fired           []vfs.LogEntry
-	opsAfterFault   int
-	reopened        bool
-	hung            bool
-	failedWrites    int
-	readErrors      int
-	damageChecked   bool
-	damageDetected  bool
-	fileChecks      int
-	slowInfo        string
-	phaseForeground bool
+	fired            []vfs.LogEntry
+	opsAfterFault    int
+	reopened         bool
+	hung             bool
+	failedWrites     int
+	readErrors       int
+	scansUnderFaults int
+	damageChecked    bool
+	damageDetected   bool
+	fileChecks       int
+	slowInfo         string
+	phaseForeground  bool
 }
 
 var errHung = fmt.Errorf("call did not return in time")
@@ -297,6 +298,68 @@ func runFaultsOpts(c *ECase, strict, files bool) (st eStats, err error) {
 		}
 		return nil
 	}
+	// checkScan iterates over the whole DB (forwards or backwards) while failures may be active:
+	// every yielded pair must be admissible for its key, keys must be strictly ordered, and an
+	// iteration that reports no error must not have skipped a key that certainly exists
+	checkScan := func(i int, backward bool) error {
+		type kv struct{ k, v []byte }
+		var got []kv
+		var ierr error
+		if !ctl.do("iterator scan", func() {
+			it := db.NewIterator(nil, nil)
+			defer it.Release()
+			for ok := func() bool {
+				if backward {
+					return it.Last()
+				}
+				return it.First()
+			}(); ok; ok = func() bool {
+				if backward {
+					return it.Prev()
+				}
+				return it.Next()
+			}() {
+				got = append(got, kv{append([]byte{}, it.Key()...), append([]byte{}, it.Value()...)})
+				if len(got) > 10000 {
+					break
+				}
+			}
+			ierr = it.Error()
+		}) {
+			st.hung = true
+			return errHung
+		}
+		dir := "forward"
+		if backward {
+			dir = "backward"
+		}
+		seen := map[string]bool{}
+		for j, p := range got {
+			if j > 0 {
+				d := o.GetComparer().Compare(got[j-1].k, p.k)
+				if (!backward && d >= 0) || (backward && d <= 0) {
+					return fmt.Errorf("op #%d: %s scan yields %q after %q", i, dir, p.k, got[j-1].k)
+				}
+			}
+			seen[string(p.k)] = true
+			a := allowedFor(issued, string(p.k))
+			if !a.vals[string(p.v)] {
+				return fmt.Errorf("op #%d: %s scan yields %q = %.40q which is neither the last successfully written value nor the value of a later failed write (pair #%d of %d; iterator error at the end: %v)", i, dir, p.k, p.v, j, len(got), ierr)
+			}
+		}
+		if ierr != nil {
+			st.readErrors++
+			return nil
+		}
+		for ki := range c.Keys {
+			k := key(ki)
+			if a := allowedFor(issued, string(k)); !a.absent && !seen[string(k)] {
+				return fmt.Errorf("op #%d: %s scan ended without an error but skipped %q, whose last successful write stored a value that no later write could have removed", i, dir, k)
+			}
+		}
+		st.scansUnderFaults++
+		return nil
+	}
 	armed, healed := false, false
 	for i := range c.Ops {
 		if i >= c.ArmAt && !armed {
@@ -388,6 +451,13 @@ func runFaultsOpts(c *ECase, strict, files bool) (st eStats, err error) {
 			}
 		case "get":
 			if err := checkRead(i, key(op.K)); err != nil {
+				if err == errHung {
+					return st, nil
+				}
+				return st, err
+			}
+		case "scan":
+			if err := checkScan(i, op.Slot == 1); err != nil {
 				if err == errHung {
 					return st, nil
 				}
@@ -766,13 +836,13 @@ func drawECase(t *rapid.T, excluded map[string]bool) *ECase {
 	c.Cmp = rapid.SampledFrom([]string{"bytewise", "bytewise", "inv"}).Draw(t, "cmp")
 	c.Keys = gen.DrawKeyPool(t, 3, 20)
 	nk := len(c.Keys)
-	kinds := []string{"put", "put", "put", "put", "put", "put", "put", "del", "del", "batch", "batch", "bigbatch", "get", "get", "compact", "reopen", "tropen", "trcommit", "trdiscard", "bigtr"}
+	kinds := []string{"put", "put", "put", "put", "put", "put", "put", "del", "del", "batch", "batch", "bigbatch", "get", "get", "scan", "compact", "reopen", "tropen", "trcommit", "trdiscard", "bigtr"}
 	deep := rapid.IntRange(0, 2).Draw(t, "deep") == 0
 	if deep {
 		// many small tables over several levels, lots of tombstones
 		c.Opts.WriteBuffer, c.Opts.TableSize, c.Opts.TotalSize, c.Opts.TotalSizeMult = 256, 512, 1024, 2
 		c.Opts.L0Trigger, c.Opts.L0Slowdown, c.Opts.L0Pause = 2, 6, 8
-		kinds = []string{"put", "put", "put", "put", "put", "put", "del", "del", "del", "batch", "get", "compact", "reopen", "bigtr"}
+		kinds = []string{"put", "put", "put", "put", "put", "put", "del", "del", "del", "batch", "get", "scan", "compact", "reopen", "bigtr"}
 	}
 	if rapid.IntRange(0, 7).Draw(t, "setro") == 0 {
 		kinds = append(kinds, "setro")
@@ -794,6 +864,8 @@ func drawECase(t *rapid.T, excluded map[string]bool) *ECase {
 			}
 		case "del", "get":
 			op.K = rapid.IntRange(0, nk-1).Draw(t, "k")
+		case "scan":
+			op.Slot = rapid.IntRange(0, 1).Draw(t, "backward")
 		case "batch":
 			n := rapid.IntRange(1, 8).Draw(t, "bn")
 			for j := 0; j < n; j++ {
@@ -838,7 +910,35 @@ func drawECase(t *rapid.T, excluded map[string]bool) *ECase {
 	})
 	c.Faults = rapid.SliceOfN(fg, 1, 3).Draw(t, "faults")
 	// two structured shapes that random mixing rarely reaches
-	switch rapid.SampledFrom([]string{"random", "random", "random", "random", "random", "random", "delwave", "bigjournal"}).Draw(t, "shape") {
+	switch rapid.SampledFrom([]string{"random", "random", "random", "random", "random", "random", "delwave", "bigjournal", "readfault"}).Draw(t, "shape") {
+	case "readfault":
+		// two generations of every key settled in several small tables over two or more levels
+		// (the older generation deeper), cold caches after a reopen, then one or two table
+		// open/read failures while the DB is scanned in both directions and read point-wise
+		c.Opts.WriteBuffer, c.Opts.TableSize, c.Opts.TotalSize, c.Opts.TotalSizeMult = 512, 512, 1024, 2
+		c.Opts.L0Trigger, c.Opts.L0Slowdown, c.Opts.L0Pause = 4, 8, 12
+		c.Opts.BlockSize = rapid.SampledFrom([]int{64, 256}).Draw(t, "rfbs")
+		c.Opts.DisableLargeBatch = true
+		var ops []dbm.Op
+		for r := 0; r < 2; r++ {
+			for k := 0; k < nk; k++ {
+				ops = append(ops, dbm.Op{T: "put", K: k, V: gen.VSpec{Len: rapid.SampledFrom([]int{90, 150, 260}).Draw(t, "vl"), Fill: 1}})
+			}
+			if r == 0 {
+				ops = append(ops, dbm.Op{T: "compact"})
+			}
+		}
+		ops = append(ops, dbm.Op{T: "reopen"})
+		c.ArmAt = len(ops)
+		for j := 0; j < 4; j++ {
+			ops = append(ops, dbm.Op{T: "scan", Slot: rapid.IntRange(0, 1).Draw(t, "backward")})
+			ops = append(ops, dbm.Op{T: "get", K: rapid.IntRange(0, nk-1).Draw(t, "k")})
+		}
+		c.HealAt = len(ops)
+		ops = append(ops, dbm.Op{T: "scan", Slot: 1}, dbm.Op{T: "scan"})
+		c.Ops = ops
+		c.Faults = []vfs.Fault{{Kind: rapid.SampledFrom([]string{vfs.OpRead, vfs.OpRead, vfs.OpOpen}).Draw(t, "rfk"), FType: "table", Nth: rapid.IntRange(1, 14).Draw(t, "rfn"), Count: rapid.SampledFrom([]int{1, 1, 2}).Draw(t, "rfc")}}
+		return finishECase(t, c)
 	case "delwave":
 		// data settled over several levels, then a wave of deletes whose compaction meets a
 		// table write/sync failure and is retried
@@ -967,6 +1067,9 @@ func TestC08(t *testing.T) {
 		}
 		if st.readErrors > 0 {
 			cl = append(cl, "read-returned-error")
+		}
+		if st.scansUnderFaults > 0 {
+			cl = append(cl, "scan-while-faults-armed")
 		}
 		if st.damageChecked {
 			cl = append(cl, "checksum-clause")
